@@ -5,6 +5,7 @@
 #include "detsched.h"
 #include <errno.h>
 #include <pthread.h>
+#include <sched.h>
 #include <semaphore.h>
 #include <setjmp.h>
 #include <stdlib.h>
@@ -26,6 +27,10 @@ int __real_pthread_cond_destroy(pthread_cond_t *);
 int __real_pthread_once(pthread_once_t *, void (*)(void));
 int __real_clock_gettime(clockid_t, struct timespec *);
 int __real_nanosleep(const struct timespec *, struct timespec *);
+int __real_pthread_attr_init(pthread_attr_t *);
+int __real_pthread_attr_setstacksize(pthread_attr_t *, size_t);
+int __real_pthread_attr_getstacksize(const pthread_attr_t *, size_t *);
+int __real_pthread_attr_setaffinity_np(pthread_attr_t *, size_t, const cpu_set_t *);
 
 /* ------------------------------------------------------------------ state */
 struct dobj {
@@ -62,6 +67,8 @@ struct dthread {
     uint64_t wait_seq;
     int result;
     int fail_creates, fail_err; /* ds_fail_next_create */
+    int fail_attr[DS_ATTR_COUNT]; /* ds_fail_next_attr: errno for the next call of that kind, 0 = none */
+    int attr_faults;              /* injected pthread_attr_* failures this thread ran into */
 };
 
 static struct {
@@ -82,6 +89,7 @@ static struct {
     int deadlock, livelock, diverged, misuse;
     volatile int abort_flag;
     long steps, create_count, fail_at;
+    int attr_faults;
     int fail_err;
     sem_t done;
     jmp_buf main_jmp;
@@ -621,11 +629,11 @@ int __wrap_pthread_create(pthread_t *th, const pthread_attr_t *attr, void *(*fn)
     n->fn = fn;
     n->arg = arg;
     pthread_attr_t a;
-    pthread_attr_init(&a);
+    __real_pthread_attr_init(&a);
     if (attr) {
         size_t ss = 0;
-        if (pthread_attr_getstacksize(attr, &ss) == 0 && ss >= 65536) {
-            pthread_attr_setstacksize(&a, ss);
+        if (__real_pthread_attr_getstacksize(attr, &ss) == 0 && ss >= 65536) {
+            __real_pthread_attr_setstacksize(&a, ss);
         }
     }
     int rr = __real_pthread_create(&n->tid, &a, trampoline, n);
@@ -777,6 +785,35 @@ int __wrap_pthread_once(pthread_once_t *o, void (*init)(void)) {
     return 0;
 }
 
+/* pthread_attr_*: no schedule point (purely local calls); only the failure injection of ds_fail_next_attr */
+static int attr_fault(int which) {
+    struct dthread *s = scheduled_self();
+    if (s && s->fail_attr[which]) {
+        int e = s->fail_attr[which];
+        s->fail_attr[which] = 0;
+        G.attr_faults++;
+        s->attr_faults++;
+        return e;
+    }
+    return 0;
+}
+int __wrap_pthread_attr_init(pthread_attr_t *a) {
+    int e = attr_fault(DS_ATTR_INIT);
+    return e ? e : __real_pthread_attr_init(a);
+}
+int __wrap_pthread_attr_setstacksize(pthread_attr_t *a, size_t n) {
+    int e = attr_fault(DS_ATTR_SETSTACKSIZE);
+    return e ? e : __real_pthread_attr_setstacksize(a, n);
+}
+int __wrap_pthread_attr_getstacksize(const pthread_attr_t *a, size_t *n) {
+    int e = attr_fault(DS_ATTR_GETSTACKSIZE);
+    return e ? e : __real_pthread_attr_getstacksize(a, n);
+}
+int __wrap_pthread_attr_setaffinity_np(pthread_attr_t *a, size_t n, const cpu_set_t *c) {
+    int e = attr_fault(DS_ATTR_SETAFFINITY);
+    return e ? e : __real_pthread_attr_setaffinity_np(a, n, c);
+}
+
 int __wrap_clock_gettime(clockid_t id, struct timespec *ts) {
     if (!scheduled_self()) {
         return __real_clock_gettime(id, ts);
@@ -847,6 +884,7 @@ void ds_init(const struct ds_config *cfg) {
     }
     G.cfg.list = G.list;
     G.fail_at = -1;
+    G.attr_faults = 0;
     G.deadlock = G.livelock = G.diverged = G.misuse = 0;
 }
 
@@ -966,6 +1004,16 @@ void ds_fail_next_create(int count, int err) {
         s->fail_creates = count;
         s->fail_err = err;
     }
+}
+void ds_fail_next_attr(int which, int err) {
+    struct dthread *s = scheduled_self();
+    if (s && which >= 0 && which < DS_ATTR_COUNT) {
+        s->fail_attr[which] = err;
+    }
+}
+int ds_attr_fault_count(void) {
+    struct dthread *s = scheduled_self();
+    return s ? s->attr_faults : G.attr_faults;
 }
 void ds_inject_create_failure(long n, int err) {
     G.fail_at = n;
